@@ -194,7 +194,8 @@ func genStructuredTag(c *core.Ctx) (string, structured) {
 	}
 	used := map[string]bool{}
 	na := c.Rng.Intn(6)
-	names := []string{"required", "qualifier", "validate", "returns", "mapper", "embed", "x", "Zed", "q1", "Required", "Qualifier"}
+	// (names with separators inside: only the FIRST letter's case is immaterial - log-level and log-Level are two names)
+	names := []string{"required", "qualifier", "validate", "returns", "mapper", "embed", "x", "Zed", "q1", "Required", "Qualifier", "log-level", "log-Level", "time.layout", "time.Layout", "a/b", "a/B"}
 	for i := 0; i < na; i++ {
 		name := names[c.Rng.Intn(len(names))]
 		if c.Rng.Intn(3) == 0 {
@@ -566,9 +567,18 @@ func (p c19) e2e(c *core.Ctx) {
 		args = req + extra()
 	}
 	var fields []world.FieldSpec
-	kind := c.Rng.Intn(4)
+	kind := c.Rng.Intn(5)
 	var tag string
+	sc := &world.Scenario{}
 	switch kind {
+	case 4:
+		// a by-type point with candidates none of which carries the requested qualifier: unsatisfiable like one
+		// without candidates - optional only with an explicit required=false
+		g := world.NewG(c.Rng)
+		g.AddNode([]int{0, 1, 3}[c.Rng.Intn(3)], "some-ia")
+		sc = g.Sc
+		tag = world.WireTag("wire", ",qualifier=no-such-group"+args)
+		fields = append(fields, world.FieldSpec{Name: "F", Type: world.TypeIA, Tag: tag})
 	case 0:
 		tag = world.WireTag("wire", "no-such-component"+args)
 		fields = append(fields, world.FieldSpec{Name: "F", Type: world.TypeIA, Tag: tag})
@@ -595,7 +605,7 @@ func (p c19) e2e(c *core.Ctx) {
 		scanners = append(scanners, &userScanner{processors.DefaultTagScanDefinitionRegistryPostProcessor{NodeType: component_definition.PropertyTypeComponent, Tag: "mywire"}})
 	}
 	h := world.NewHolder(world.BuildStruct(fields))
-	r := world.Start(&world.Scenario{}, world.Options{Extra: append([]any{h}, scanners...)})
+	r := world.Start(sc, world.Options{Extra: append([]any{h}, scanners...)})
 	c.Count("e2e_starts", 1)
 	if abnormal(r.Outcome()) {
 		c.Fail("", fmt.Sprintf("holder with tag %s: %s", tag, r.OutcomeDetail()), map[string]any{"tag": tag})
